@@ -32,7 +32,17 @@ def _mods(repo):
 
 
 def planted(seed, n_events=4, sy=0.8, drop=(0.35, 0.9)):
-    """Returns dict(rain, et, wl, truth) — lists of (epoch, value)."""
+    """Returns dict(rain, et, wl, truth) — lists of (epoch, value).  Every planted storm is a storm for the thresholds the
+    stand-ins use (4 mm/h rain, 8 mm/h rise): a draw with a weaker one (possible near the top of the master curve) is
+    rejected and redrawn from a derived seed, so that the planted ranges are a valid oracle."""
+    for attempt in range(200):
+        d = _planted(seed if attempt == 0 else seed * 1000003 + attempt, n_events, sy, drop)
+        if all(ev[0] != "storm" or ((ev[3] - ev[2]) / ev[1] >= 6.0) for ev in d["events"]):
+            return d
+    raise RuntimeError("no admissible planted dataset for seed %r" % seed)
+
+
+def _planted(seed, n_events=4, sy=0.8, drop=(0.35, 0.9)):
     rng = random.Random(seed)
     # master recession curve on the lattice: strictly decreasing, slowing down
     zr = [60.0]
@@ -42,6 +52,7 @@ def planted(seed, n_events=4, sy=0.8, drop=(0.35, 0.9)):
     pos = rng.randint(0, 20)            # index on the master curve
     rain, wl = [], []
     events = []
+    ranges = {"storm": [], "interstorm": []}       # planted level ranges of the rises / recessions (for the oracle)
     def emit(level, r):
         nonlocal t
         wl.append((pipeline.E0 + t * STEP, level))
@@ -70,6 +81,7 @@ def planted(seed, n_events=4, sy=0.8, drop=(0.35, 0.9)):
             lvl += inc
         pos = target
         events.append(("storm", s, start_level, zr[target], intensity))
+        ranges["storm"].append((start_level, zr[target]))
         # one drizzle step (rain above zero but below the storm threshold, level unchanged): the
         # sample that ends the last big increment is rainy, so the recession that follows is clean
         emit(zr[pos], 0.5)
@@ -77,12 +89,13 @@ def planted(seed, n_events=4, sy=0.8, drop=(0.35, 0.9)):
         m = rng.randint(5, 12)
         for j in range(m):
             emit(zr[pos + j], 0.0)
+        ranges["interstorm"].append((zr[pos + m - 1], zr[pos]))
         pos = pos + m
         cur = zr[pos]
         events.append(("recession", m))
     emit(cur, 0.0)
     et = [(pipeline.E0 + k * STEP, 0.1) for k in range(-1, t + 2)]
-    return {"rain": rain, "et": et, "wl": wl, "truth": {"zr": zr, "sy": sy}, "events": events}
+    return {"rain": rain, "et": et, "wl": wl, "truth": {"zr": zr, "sy": sy}, "events": events, "ranges": ranges}
 
 
 def workflow(repo, data, grid_mm, ref=None, shift=0, tz="UTC", cli=False, steps=("rise", "recession")):
@@ -138,14 +151,18 @@ def truth_time(zr, z):
     raise ValueError(z)
 
 
-def shared_levels(con, interval_type, grid):
+def shared_levels(con, interval_type, grid, planted_ranges=None):
     """Independent lower bound on the size of a master curve: the number of grid levels lying strictly between the
     lowest and highest water level of at least two intervals of the given type (from zeta_interval and water_level
     only).  A master curve with fewer levels than that is missing something; with a coarse grid a curve of fewer
     than two levels is legitimate and says nothing about C06."""
     import math
     ranges = []
-    for a, b in con.execute("SELECT start_epoch, thru_epoch FROM zeta_interval WHERE interval_type = ?", (interval_type,)).fetchall():
+    if planted_ranges is not None:
+        # independent of spowtd altogether: the level ranges the generator planted
+        ranges = [(min(a, b), max(a, b)) for a, b in planted_ranges[interval_type]]
+        con = None
+    for a, b in (con.execute("SELECT start_epoch, thru_epoch FROM zeta_interval WHERE interval_type = ?", (interval_type,)).fetchall() if con is not None else []):
         z = [r[0] for r in con.execute("SELECT zeta_mm FROM water_level WHERE epoch >= ? AND epoch <= ?", (a, b))]
         if len(z) >= 2:
             ranges.append((min(z), max(z)))
@@ -181,6 +198,8 @@ def shared_levels(con, interval_type, grid):
 def nothing_to_assemble(repo, data, grid, kind, cli=False):
     """True when, by the independent oracle, no grid level is shared by two intervals of the step `kind`: the step
     then has nothing to align and refuses; the master-curve properties say nothing about such a dataset."""
+    if data.get("ranges"):
+        return shared_levels(None, "storm" if kind == "rise" else "interstorm", grid, data["ranges"]) == 0
     try:
         pre = workflow(repo, data, grid, cli=cli, steps=())
     except Exception:
@@ -208,8 +227,8 @@ def run_C06(repo, tier, seed):
             # nothing then); find the step that raised and ask the independent oracle
             con = None
             try:
-                pre = workflow(repo, data, grid, cli=True, steps=())
-                need = {"rise": shared_levels(pre, "storm", grid), "recession": shared_levels(pre, "interstorm", grid)}
+                need = {"rise": shared_levels(None, "storm", grid, data["ranges"]),
+                        "recession": shared_levels(None, "interstorm", grid, data["ranges"])}
                 ok_steps, added = [], False
                 for stp in ("rise", "recession"):
                     try:
@@ -235,7 +254,7 @@ def run_C06(repo, tier, seed):
             if max(d) - min(d) > 1e-6 * max(1.0, max(abs(x) for x in d)):
                 failures.append({"key": "recession-master-curve", "input": case,
                                  "observed": "elapsed time minus planted curve is not constant: spread %r steps" % (max(d) - min(d))})
-        elif shared_levels(con, "interstorm", grid) >= 2:
+        elif shared_levels(None, "interstorm", grid, data["ranges"]) >= 2:
             failures.append({"key": "no-recession-curve", "input": case,
                              "observed": "fewer than two levels in the recession master curve although at least two grid levels are shared within the main group of overlapping recession intervals"})
         if len(rise) >= 2:
@@ -243,7 +262,7 @@ def run_C06(repo, tier, seed):
             if max(d) - min(d) > 1e-6 * max(1.0, max(abs(x) for x in d)):
                 failures.append({"key": "rise-master-curve", "input": case,
                                  "observed": "storage minus Sy*level is not constant: spread %r mm" % (max(d) - min(d))})
-        elif shared_levels(con, "storm", grid) >= 2:
+        elif shared_levels(None, "storm", grid, data["ranges"]) >= 2:
             failures.append({"key": "no-rise-curve", "input": case,
                              "observed": "fewer than two levels in the rise master curve although at least two grid levels are shared within the main group of overlapping storm rises"})
         # aligned pieces coincide wherever they overlap
